@@ -86,6 +86,8 @@ def encoded(text, enc):
         return ('# -*- coding: latin-1 -*-\n' + text + tail).encode('latin-1')
     if enc == 'utf-8-sig':
         return (text + tail).encode('utf-8-sig')
+    if enc == 'linked':
+        return text.encode('utf-8')
     return text.encode('utf-8')
 
 
@@ -97,6 +99,10 @@ def behave(build, prog, cfg, enc=None):
             os.makedirs(os.path.dirname(p), exist_ok=True)
             with open(p, 'wb') as fh:
                 fh.write(encoded(text, enc if rel == prog['script'] else None))
+        if prog['module'] and enc == 'linked':
+            # the package is reached through a symbolic link whose target has another name (a versioned checkout linked into place)
+            os.rename(os.path.join(d, 'pkgk'), os.path.join(d, 'pkgk_impl_v2'))
+            os.symlink('pkgk_impl_v2', os.path.join(d, 'pkgk'))
         e = real_env(build)
         pm = [os.path.join(d, x[5:]) if x.startswith('PATH:') else x for x in cfg['prof_mod']]
         popts = []
@@ -223,6 +229,8 @@ def run(ctx):
         c0 = next(c for c in cases if c['prof_mod'] and not c['module'] and c['prof_mod'][0].startswith('PATH:'))
         c1 = next(c for c in cases if c['prof_mod'] == ['helper'] and not c['module'])
         runs = [(c0, 'latin-1'), (c0, 'utf-8-sig'), (c1, 'latin-1'), (c1, 'utf-8-sig')] + [(c, ENCODINGS[i % len(ENCODINGS)]) for i, c in enumerate(sample)]
+        # -m programs once more with the package reached through a symbolic link
+        runs += [(c, 'linked') for c in sample if c['prog']['module']][:(6 if ctx.quick else 60)]
         bres = list(ex.map(lambda ce: behave(build, ce[0]['prog'], ce[0], ce[1]), runs))
     sample = [c for c, _e in runs]
     for bi, (c, b) in enumerate(zip(sample, bres)):
